@@ -353,6 +353,7 @@ func (e *Engine) FullPrelude() string {
 	var sb strings.Builder
 	sb.WriteString(e.Prelude())
 	sb.WriteString(e.cvAxioms())
+	sb.WriteString(e.cryptoAxioms())
 	sb.WriteString(e.specDecls())
 	sb.WriteString(e.extraDecls())
 	sb.WriteString(e.stringDecls())
